@@ -1,5 +1,6 @@
 """C14 — check configuration and MANIFEST entry."""
-CFG = {'assumptions': ['f64 inputs cross the boundary as bit patterns (non-finite values as nan/inf/-inf classes) and are '
+CFG = {'scale_variants': False,
+ 'assumptions': ['f64 inputs cross the boundary as bit patterns (non-finite values as nan/inf/-inf classes) and are '
                  'decoded to exact rationals; Rust f64 ops are IEEE-754',
                  'reading of the property text: an empty ring is an absent ring, a polygon with an empty exterior is '
                  'the empty polygon, empty geometries are well-formed (as in JTS/OGC); a connected interior is NOT '
